@@ -119,6 +119,8 @@ pub fn subs() -> Vec<Sub> {
               kind: Kind::Random { quick: 1_500, thorough: 3_000, tape: 16, f: big_containers } },
         Sub { prop: "C07", name: "large", rule: "the large collections of C01 (65535 .. 131072 elements, twelve container / string kinds): len == bytes written",
               kind: Kind::Random { quick: 300, thorough: 3_000, tape: 64, f: large } },
+        Sub { prop: "C07", name: "context-threading", rule: "len_with over 24 container shapes of context-sensitive elements (an element's length depends on the user context's counter, which every element advances): the length equals the bytes encode_with writes from the same starting context and the context ends in the same state - the length computation has to visit the elements in wire order (key, value, key, value in maps)",
+              kind: Kind::Random { quick: 200_000, thorough: 2_000_000, tape: 64, f: crate::checks::ctx::context_threading } },
         Sub { prop: "C07", name: "tokens", rule: "all 26 Token variants with boundary-dense payloads (F16 of arbitrary f32 included: encoding succeeds); distinct by bytes",
               kind: Kind::Random { quick: 750_000, thorough: 5_000_000, tape: 512, f: tokens } },
     ]
